@@ -258,3 +258,53 @@ pub fn any_elem(maxs: usize) -> It {
         any_small_container(maxs)
     }
 }
+
+pub fn be32(buf: &[u8], i: usize) -> u32 {
+    ((buf[i] as u32) << 24) | ((buf[i + 1] as u32) << 16) | ((buf[i + 2] as u32) << 8) | (buf[i + 3] as u32)
+}
+
+pub fn be32_bytes(w: u32) -> [u8; 4] {
+    [(w >> 24) as u8, (w >> 16) as u8, (w >> 8) as u8, w as u8]
+}
+
+/// `n` selects element n iff 0 <= n < len; `last + k` selects len-1+k iff in range (unbounded arithmetic)
+pub fn spec_convert_index(is_last: bool, v: i32, length: i32) -> Option<usize> {
+    let len = length as i128;
+    let idx = if is_last { len - 1 + v as i128 } else { v as i128 };
+    if idx >= 0 && idx < len { Some(idx as usize) } else { None }
+}
+
+// ---- leaf harnesses for the trusted shims of verus/shims.rs ----
+/// [K leaf] u32::to_be_bytes is be32_bytes (shim vx_to_be_bytes), u32::from_be_bytes is be32
+#[kani::proof]
+fn leaf_be_bytes() {
+    let w: u32 = kani::any();
+    assert!(w.to_be_bytes() == be32_bytes(w));
+    let b: [u8; 4] = kani::any();
+    assert!(u32::from_be_bytes(b) == be32(&b, 0));
+    assert!(be32(&be32_bytes(w), 0) == w);
+}
+
+/// [K leaf] byteorder write_u32::<BigEndian> appends be32_bytes(n); read_u32::<BigEndian> on &[u8]
+/// reads be32 and advances by 4, or fails and leaves fewer than 4 bytes unread
+#[kani::proof]
+#[kani::unwind(10)]
+fn leaf_byteorder_rw() {
+    use byteorder::{BigEndian, ReadBytesExt, WriteBytesExt};
+    let n: u32 = kani::any();
+    let mut v: Vec<u8> = Vec::new();
+    let pre: u8 = kani::any();
+    v.push(pre);
+    assert!(v.write_u32::<BigEndian>(n).is_ok());
+    assert!(v.len() == 5 && v[0] == pre && v[1..5] == be32_bytes(n));
+    let raw: [u8; 6] = kani::any();
+    let len: usize = kani::any();
+    kani::assume(len <= 6);
+    let mut s: &[u8] = &raw[..len];
+    let r = s.read_u32::<BigEndian>();
+    if len >= 4 {
+        assert!(r.is_ok() && r.unwrap() == be32(&raw, 0) && s.len() == len - 4);
+    } else {
+        assert!(r.is_err());
+    }
+}
